@@ -135,8 +135,11 @@ class MatrixOp(diff.DiffOperator, operator.CombinableOperator):
             order2=order2,
             **kwargs,
         )
-        # cross derivatives with variables carried by the state are formed if either operand asked for them
-        new.auto_cross_derivatives = op1.auto_cross_derivatives or op2.auto_cross_derivatives
+        # cross derivatives with variables carried by the state are formed if an operand that differentiates
+        # something asked for them (an operand without declarations has nothing to cross)
+        new.auto_cross_derivatives = any(
+            op.auto_cross_derivatives for op in (op1, op2) if op.order1 or op.order2
+        )
         return new
 
 
